@@ -20,8 +20,8 @@ import (
 )
 
 const (
-	cmd1 = "show alpha"
-	cmd2 = "show all" // ends in a doubled character: a fuzzy echo matcher that counts one echoed byte twice is exposed by a cut before the last byte
+	cmd1 = `show alpha | i ^Gi[0-9]+\.(1|2)` // regex metacharacters and a pipe: the echo is matched as bytes, never as a pattern
+	cmd2 = "show all"                        // ends in a doubled character: a fuzzy echo matcher that counts one echoed byte twice is exposed by a cut before the last byte
 )
 
 type outv struct{ name, text string }
